@@ -230,6 +230,7 @@ h_is_job_invalid(void)
         const uint64_t kl = nondet_u64();
 
         g_kl64 = kl;
+        g_spec = nondet_u64(); /* statics are zero-initialised: the ghost verdict must start unconstrained */
         g_ret = is_job_invalid(state, job, cm, ha, dir, kl); /* implicit conversion as in the callers */
         /* vacuity guards: both outcomes must be reachable under the preconditions */
         ;
